@@ -120,6 +120,10 @@ for rnd_i in range(1 if tier == "quick" else 4):
     for pr in sp_probs:
         v.report({"branch": "subscribed-pipeline", "kind": pr["kind"], "detail": ""}, pr,
                  what="a subscribed connection pipelining ordinary commands while others publish: %s" % pr["detail"])
+si_probs, si_stats = wireconc.subscriber_idle_reply((2.6,) if tier == "quick" else (2.6, 5.5, 11.0, 31.0, 61.0))
+wc_stats.append(si_stats)
+for pr in si_probs:
+    v.report({"branch": "subscriber-idle", "kind": pr["kind"], "detail": ""}, pr, what=pr["detail"])
 cov["concurrent_connections"] = wc_stats
 cov["adversarial_inputs"] = r_summary["executed"]
 cov["traces_validated_against_impl"] += 0
